@@ -11,6 +11,7 @@ CLASSES = {
     "BayesianNetwork": {"mro": ["BayesianNetwork", "DAG", "DiGraph"], "file": "pgmpy/models/BayesianNetwork.py"},
     "UndirectedGraph": {"mro": ["UndirectedGraph", "Graph"], "file": "pgmpy/base/UndirectedGraph.py"},
     "IndependenceAssertion": {"mro": ["IndependenceAssertion"], "file": "pgmpy/independencies/Independencies.py"},
+    "MarkovNetwork": {"mro": ["MarkovNetwork", "UndirectedGraph", "Graph"], "file": "pgmpy/models/MarkovNetwork.py"},
     "Graph": {"mro": ["Graph"], "file": None},
     "DiGraph": {"mro": ["DiGraph"], "file": None},
 }
